@@ -253,10 +253,12 @@ def run_case(case: dict) -> dict:
                     raise Violation("controlled-entity-missing", {"uid": uid, "where": where})
                 got = w.condition_of(e.num)
                 if got is None:
-                    if e.cb.get("circuit_enabled") is False and isinstance(val, int):
+                    if isinstance(val, int):
+                        # `enable = <int constant>` is expressed by the circuit_enabled flag
+                        probe(res, "constant_enable_flag")
                         continue
-                    probe(res, "entity_without_condition")
-                    continue
+                    raise Violation("entity-condition-missing", {
+                        "entity": [e.name, e.x, e.y], "control_behavior": e.cb, "where": where})
                 exp = lang.ival(val) > 0
                 res["compared"] += 1
                 if got != exp:
